@@ -575,20 +575,53 @@ func runC09(ctx *Ctx) *Result {
 	return res
 }
 
-// sameIntent compares what two calls of the same identity asked the server to do, ignoring the
-// resourceVersion they were based on (and, for status writes, everything but the status).
+// sameIntent tells whether the successful call b achieved what the failed call a of the same identity
+// asked for. The two requests need not be byte-equal: a retry is based on a re-read object that may
+// carry changes made by others in the meantime (that is what the conflict was about); what must be
+// the same is the part the controller wanted to change.
 func sameIntent(a, b *simapi.Call) bool {
 	if a.Verb == "patch" || a.Verb == "delete" || a.Verb == "get" || a.Verb == "list" {
 		return string(a.Patch) == string(b.Patch)
 	}
-	if a.Obj == nil || b.Obj == nil {
-		return a.Obj == b.Obj
+	if a.Obj == nil || b.After == nil {
+		return a.Obj == nil && b.Obj == nil
+	}
+	switch want := a.Obj.(type) {
+	case *asv1.StatefulSet:
+		got, ok := b.After.(*asv1.StatefulSet)
+		if a.Sub == "status" {
+			return ok && apiequality.Semantic.DeepEqual(want.Status, got.Status)
+		}
+		return ok && apiequality.Semantic.DeepEqual(want.Spec, got.Spec)
+	case *corev1.Pod:
+		got, ok := b.After.(*corev1.Pod)
+		if !ok {
+			return false
+		}
+		vols := func(p *corev1.Pod) string {
+			var l []string
+			for _, v := range p.Spec.Volumes {
+				if v.PersistentVolumeClaim != nil {
+					l = append(l, v.Name+"="+v.PersistentVolumeClaim.ClaimName)
+				}
+			}
+			sort.Strings(l)
+			return strings.Join(l, ",")
+		}
+		return want.Labels[asv1.StatefulSetPodNameLabel] == got.Labels[asv1.StatefulSetPodNameLabel] && vols(want) == vols(got)
+	case *appsv1.ControllerRevision:
+		got, ok := b.After.(*appsv1.ControllerRevision)
+		if !ok || want.Revision != got.Revision {
+			return false
+		}
+		for k, v := range want.Labels {
+			if got.Labels[k] != v {
+				return false
+			}
+		}
+		return true
 	}
 	x, y := a.Obj.DeepCopyObject(), b.Obj.DeepCopyObject()
-	if sa, ok := x.(*asv1.StatefulSet); ok && a.Sub == "status" {
-		sb, ok2 := y.(*asv1.StatefulSet)
-		return ok2 && apiequality.Semantic.DeepEqual(sa.Status, sb.Status)
-	}
 	for _, o := range []runtime.Object{x, y} {
 		m, _ := meta.Accessor(o)
 		m.SetResourceVersion("")
